@@ -122,6 +122,20 @@ struct LimitGrid : GridBase {
       for (int spare = 0; spare < (I::kFixed || is_ctor ? 1 : 3) && !g_cut; ++spare) {
         if (kWide && spare == 1) continue;  // reserving up to the maximum of a 32-bit size_type is not possible
         std::vector<uintmax_t> cs = op == L_AT ? std::vector<uintmax_t>{0, 1, stmax() > size ? stmax() - size : 0} : counts(size, single);
+        if (op == L_INSERT_RANGE || op == L_ASSIGN_RANGE || op == L_APPEND_RANGE || op == L_CTOR_RANGE) {
+          // the length of a range is not bounded by the size_type: lengths beyond its maximum, in particular those that would fit again once
+          // reduced modulo 2^bits (8-bit size types always, 16-bit ones in the deep grid)
+          if (stmax() <= 255 || (deep && stmax() <= 65535 && spare == 0)) {
+            uintmax_t wrap = stmax() + 1, room = limit() > size ? limit() - size : 0;
+            cs.push_back(wrap);
+            cs.push_back(wrap + 1);
+            cs.push_back(wrap + room);
+            cs.push_back(wrap + room / 2);
+            if (stmax() <= 255) cs.push_back(2 * wrap + 1);
+            std::sort(cs.begin(), cs.end());
+            cs.erase(std::unique(cs.begin(), cs.end()), cs.end());
+          }
+        }
         uintmax_t posc[] = {0, 1, size / 2, size ? size - 1 : 0, size};
         std::vector<uintmax_t> ps;
         if (uses_pos) { for (uintmax_t p : posc) if (p <= size) ps.push_back(p); std::sort(ps.begin(), ps.end()); ps.erase(std::unique(ps.begin(), ps.end()), ps.end()); }
@@ -130,9 +144,9 @@ struct LimitGrid : GridBase {
           uintmax_t c = cs[ci];
           if (is_il && c > 3) continue;
           bool range_op = op == L_INSERT_RANGE || op == L_ASSIGN_RANGE || op == L_APPEND_RANGE || op == L_CTOR_RANGE;
-          if (range_op && c > 300) continue;  // a range has a real length
+          if (range_op && c > 300 && !(c > stmax() && c <= stmax() + 600)) continue;  // a range has a real length
           for (size_t pi = 0; pi < ps.size() && !g_cut; ++pi)
-            for (int kind = 0; kind < (range_op ? 4 : 1) && !g_cut; ++kind) cell(op, size, spare, ps[pi], c, kind);
+            for (int kind = 0; kind < (range_op ? (c > 1000 ? 2 : 4) : 1) && !g_cut; ++kind) cell(op, size, spare, ps[pi], c, kind);
         }
       }
     }
@@ -160,7 +174,7 @@ struct LimitGrid : GridBase {
     Snap before;
     long live_before = 0, blk_before = 0;
     if (!is_ctor) { before = snap(*b.obj); live_before = g_live_lib; blk_before = g_blk_live; }
-    set_op(limname(op), is_ctor ? "-" : state_class<Vec>(before), std::string(fits ? "fits" : "exceeds") + (c == 0 ? ",c=0" : c >= stmax() - 1 ? ",c=max" : "") + (spare == 1 ? ",reserved" : spare == 2 ? ",tight" : ""),
+    set_op(limname(op), is_ctor ? "-" : state_class<Vec>(before), std::string(fits ? "fits" : "exceeds") + (c == 0 ? ",c=0" : c > stmax() ? ",c>max" : c >= stmax() - 1 ? ",c=max" : "") + (spare == 1 ? ",reserved" : spare == 2 ? ",tight" : ""),
            fmt("size=%ju pos=%ju count=%ju limit=%ju kind=%d", size, pos, c, limit(), kind));
     std::vector<Val> vals;
     bool vals_needed = op == L_INSERT_RANGE || op == L_INSERT_IL || op == L_ASSIGN_RANGE || op == L_ASSIGN_IL || op == L_APPEND_RANGE || op == L_APPEND_IL || op == L_CTOR_RANGE || op == L_CTOR_IL;
